@@ -451,8 +451,8 @@ func init() {
 			"Return-Path and Received lines + exactly the transmitted data; all four interfaces agree; Size(), REST list size, POP3 STAT/LIST/" +
 			"RETR announcement = length of the stored source; the POP3 session stays in step. A CR immediately before CRLF or the end of data " +
 			"is not generated. non-trivial = every run, distinct by content shape",
-		Real: []string{"pkg/server/smtp", "pkg/message", "stores", "pkg/rest (source, list)", "pkg/webui (source)", "pkg/server/pop3", "gorilla/mux", "net/textproto"},
-		Stub: []string{"TCP (simnet) for SMTP and POP3", "net/http server loop (handlers invoked through the router with a recorder)", "disk", "scheduler"},
+		Real:        []string{"pkg/server/smtp", "pkg/message", "stores", "pkg/rest (source, list)", "pkg/webui (source)", "pkg/server/pop3", "gorilla/mux", "net/textproto"},
+		Stub:        []string{"TCP (simnet) for SMTP and POP3", "net/http server loop (handlers invoked through the router with a recorder)", "disk", "scheduler"},
 		Assumptions: []string{"line-ending normalisation = CRLF->LF in one left-to-right pass; a CR right before CRLF / end of data is excluded"},
 	})
 }
